@@ -40,6 +40,7 @@ def run(chk, repo: Repo):
     _r1(chk, repo)
     _r2(chk, repo)
     _r2_constant_writers(chk, repo)
+    _r2_single_evaluation_point(chk, repo)
     _r2_posterior_builders(chk, repo)
     _r3_r4(chk, repo)
     # R5 shared with C11-R3
@@ -79,6 +80,38 @@ def _r2_posterior_builders(chk, repo):
                         f"come from (hyper-parameters fixed earlier) are dropped - conditioning through this path no longer equals the joint log-density", c)
     if n < 2:
         raise AnchorError(f"{n} Posterior constructions found, 2 confirmed by hand")
+
+
+def _r2_single_evaluation_point(chk, repo):
+    """The folded constant is added in exactly one place, Density.logd (`self._logd(*args) + self._constant`): no other code evaluates `_logd` directly
+    (a positional fast path in a subclass's logd would return the density WITHOUT the contributions of the variables fixed earlier).  And the value a
+    likelihood fixes its data variable to is stored as given (a re-representation of the observation changes what the density is evaluated at on this
+    route only, so the result depends on the order of conditioning)."""
+    sites = []
+    for m in repo.modules.values():
+        if not m.rel.startswith(("cuqi/density/", "cuqi/distribution/", "cuqi/likelihood/", "cuqi/implicitprior/")):
+            continue
+        for ci in m.classes.values():
+            for kind, name, fn in ci.all_functions():
+                for c in ast.walk(fn):
+                    if isinstance(c, ast.Call) and isinstance(c.func, ast.Attribute) and c.func.attr == "_logd":
+                        sites.append((m.rel, ci.name, name, c))
+    outside = [s_ for s_ in sites if not (s_[1] == "Density" and s_[2] == "logd")]
+    chk.add("C01-R2", "cuqi/density/_density.py:Density.logd/only-caller-of-_logd", len(sites) >= 1 and not outside,
+            f"{outside[0][0]}:{outside[0][3].lineno}" if outside else "cuqi/density/_density.py:1", "`_logd` is evaluated only by Density.logd, which adds the folded constant",
+            f"{outside[0][1] + '.' + outside[0][2] if outside else ''} evaluates `{unparse(outside[0][3])[:60] if outside else ''}` directly: on that path the log-density lacks `_constant`, "
+            f"the contributions of the variables fixed earlier", outside[0][3] if outside else None)
+    from .common import assigned_values
+    lk = repo.cls("cuqi/likelihood/_likelihood.py:Likelihood")
+    init = repo.method(lk, "__init__")[1]
+    dp = func_params(init)[2]
+    vals = assigned_values(repo, lk, init, "self.data")
+    rebound = [n for n in ast.walk(init) if isinstance(n, ast.Name) and n.id == dp and isinstance(n.ctx, (ast.Store, ast.Del))]
+    if rebound:
+        vals = vals + [f"<{dp} re-bound at line {rebound[0].lineno}>"]
+    chk.add("C01-R2", f"{lk.qual}.__init__/data-as-given", vals == [dp], site(repo, init), "the observation is stored as given",
+            f"Likelihood stores `{vals}` for its data, not the given object `{dp}`: fixing the data variable through a likelihood evaluates the density at another "
+            f"value than fixing it through JointDistribution.logd / an EvaluatedDensity does", init)
 
 
 def _r2_constant_writers(chk, repo):
